@@ -9,10 +9,10 @@ def plan(tier):
         if w in heavy and tier == 'quick':
             continue
         I.append(inst(f"hom[{w}]", 'harness.c17', 'homomorphism', dict(which=w), timeout_s=600, weight=20 if w in heavy else 1))
-    stackable = [w for w, (f, n, c, needs_inv) in MAPS.items() if not needs_inv]
+    stackable = [w for w, (f, n, c, needs_inv) in MAPS.items() if w not in ('gln_adjoint3', 'sln_adjoint3', 'hom.gln_adjoint')]
     for w in stackable:
         for shape in ([(2,)] if tier == 'quick' else [(1,), (2,), (2, 1)]):
-            if tier == 'quick' and w in ('sl2_irrep6', 'sl2c_to_so31'):
+            if tier == 'quick' and w in ('sl2_irrep6',):
                 continue
             I.append(inst(f"hom[{w},shape={shape}]", 'harness.c17', 'homomorphism', dict(which=w, shape=shape), timeout_s=600, weight=3))
     for n in ([2, 3, 4] if tier == 'quick' else [2, 3, 4, 5, 6]):
@@ -21,6 +21,8 @@ def plan(tier):
     for chart in (0, 1):
         I.append(inst(f"so21-form[chart={chart}]", 'harness.c17', 'so21_form', dict(chart=chart)))
         I.append(inst(f"so31-form[chart={chart}]", 'harness.c17', 'so31_form', dict(chart=chart), weight=4))
+    for chart in (0, 1):
+        I.append(inst(f"o_to_pgl-roundtrip[det=1,chart={chart}]", 'harness.c17', 'o_to_pgl_roundtrip', dict(chart=chart, sign=1), weight=20, timeout_s=900))
     for n in ([2] if tier == 'quick' else [2, 3]):
         I.append(inst(f"killing[n={n}]", 'harness.c17', 'killing', dict(n=n), weight=10 * n, timeout_s=600))
     return dict(
@@ -31,6 +33,6 @@ def plan(tier):
                      "decided exactly (normal form; z3 for residuals); holds for ALL matrices of the stated size; stacks (2,) etc. compared unit by unit"),
         bounds=dict(sl2_irrep_dims="2..6", adjoint_n="2 (quick) / 2,3 (thorough)", stack_shapes="(2,) quick; (1,),(2,),(2,1) thorough",
                     det_one_charts="a != 0 with d=(1+bc)/a, and a = 0 with c=-1/b (together: all of SL(2))"),
-        outside=["o_to_pgl (separate instances once the eigh stub is in place)", "adjoint for n >= 4", "floating-point rounding"],
+        outside=["o_to_pgl as a homomorphism on orientation-reversing elements of O(2,1) (only the determinant-one round trip is checked)", "adjoint for n >= 4", "floating-point rounding"],
         assumptions=["invertible matrices where an inverse is taken (det != 0)", "real-number / exact complex semantics"],
     )
